@@ -310,3 +310,72 @@ Theorem C06_kernel_flowpathlengths_any_code_table :
              (RefineRiver.fp_flat N (RefineRiver.flowpaths_with N codes nrows ncols fd outlet area))]).
 Proof. exact @RefineRiver.refine_delineate_flowpathlengths_in_catchment_with. Qed.
 Print Assumptions C06_kernel_flowpathlengths_any_code_table.
+
+(* ================================================================== *)
+(* Catchment delineation on the REGENERATED program (MiniC translation of *)
+(* c_delineate_area, src/hydrodiy/gis/c_catchment.c, Gen/KernelsAst.v). *)
+(* ================================================================== *)
+From Coq Require Import String Lia PrimFloat.
+From Hy Require Import Base.Num Base.MiniC Gen.KernelsAst Gen.Consts Model.Grid Model.Catchment.
+From Hy Require Proofs.RefineArea.
+Import ListNotations.
+Open Scope string_scope.
+Open Scope list_scope.
+Open Scope Z_scope.
+
+(* c_delineate_area = the model [delineate_area] (the one whose result is proved to be upstream reachability above), for every grid, flow directions (cycles included), outlet, inlets and buffer size: the model's cells followed by the untouched tail of the buffer on success; a positive code otherwise (nothing written when the outlet / an inlet is invalid or nval < 1); the model never runs out of fuel *)
+Theorem C06_kernel_delineate_area_refines_model :
+  forall (T : Type) (N : NumOps T) (X : NumLit T) (nrows ncols : Z) 
+         (fd : list Z) (outlet : Z) (inlets area0 b10 b20 : list Z) (n : nat),
+       0 <= ncols ->
+       Z.of_nat (Datatypes.length fd) = nrows * ncols ->
+       Datatypes.length b10 = Datatypes.length area0 ->
+       Datatypes.length b20 = Datatypes.length area0 ->
+       (Datatypes.length inlets < n)%nat ->
+       (Datatypes.length area0 < n)%nat ->
+       (13 < n)%nat ->
+       match delineate_area nrows ncols fd outlet inlets (Z.of_nat (Datatypes.length area0)) with
+       | DErr =>
+           exists (code : Z) (a b1 b2 : list Z),
+             0 < code /\
+             RefineArea.da_call N X n nrows ncols fd outlet inlets area0 b10 b20 =
+             Ok (RI code, [VArrI FLOWDIRCODE; VArrI fd; VArrI inlets; VArrI a; VArrI b1; VArrI b2]) /\
+             (RefineArea.da_rejected nrows ncols outlet (Z.of_nat (Datatypes.length area0)) inlets =
+              true -> a = area0 /\ b1 = b10 /\ b2 = b20)
+       | DFuel => False
+       | DOk res =>
+           RefineArea.da_call N X n nrows ncols fd outlet inlets area0 b10 b20 =
+           Ok
+             (RI 0,
+              [VArrI FLOWDIRCODE; VArrI fd; VArrI inlets;
+               VArrI (res ++ skipn (Datatypes.length res) area0);
+               VArrI
+                 (fst
+                    (RefineArea.area_bufs nrows ncols outlet (Z.of_nat (Datatypes.length area0)) fd
+                       inlets b10 b20));
+               VArrI
+                 (snd
+                    (RefineArea.area_bufs nrows ncols outlet (Z.of_nat (Datatypes.length area0)) fd
+                       inlets b10 b20))])
+       end.
+Proof. exact @RefineArea.refine_c_delineate_area. Qed.
+Print Assumptions C06_kernel_delineate_area_refines_model.
+
+(* the callee c_upstream on one cell, any 3x3 code table *)
+Theorem C06_kernel_upstream_one_cell :
+  forall (T : Type) (N : NumOps T) (X : NumLit T) (n : nat) (nrows ncols : Z)
+         (codes fd : list Z) (c : Z) (up : list Z),
+       0 <= ncols ->
+       0 <= c < nrows * ncols ->
+       Datatypes.length codes = 9%nat ->
+       Z.of_nat (Datatypes.length fd) = nrows * ncols ->
+       Datatypes.length up = 9%nat ->
+       (12 < n)%nat ->
+       exec_fun N X program (S n) "c_upstream"
+         [AVI nrows; AVI ncols; AVArrI codes; AVArrI fd; AVI 1; AVArrI [c]; AVArrI up] =
+       Ok
+         (RI 0,
+          [VArrI codes; VArrI fd; VArrI [c];
+           VArrI (pad9 (upstream_hits_with codes nrows ncols fd c))]).
+Proof. exact @RefineArea.refine_c_upstream_one. Qed.
+Print Assumptions C06_kernel_upstream_one_cell.
